@@ -157,6 +157,9 @@ type GenOpts struct {
 	Traces  bool // generate trace actions
 	Created bool // generate Created(address) logs (for filter_ref graphs)
 	Decoys  bool
+	// OtherEvery: with Decoys one Transfer in OtherEvery is emitted by OtherAddr instead of
+	// the token (0 = 4)
+	OtherEvery int `json:",omitempty"`
 	// TopicTwins: further decoys with the topic COUNT of Transfer / Approval but another
 	// topic0 and data shorter than one word (none at all; four bytes).  With Decoys the
 	// chain already has Approval logs (three topics, one word): "decoy-topic".
@@ -248,7 +251,11 @@ func GenBlock(r *lib.RNG, tag int, num uint64, parent []byte, o GenOpts, st *Gen
 			default:
 				l.Kind = "transfer"
 				l.Addr = TokenAddr
-				if o.Decoys && r.Intn(4) == 0 {
+				every := o.OtherEvery
+				if every < 2 {
+					every = 4
+				}
+				if o.Decoys && r.Intn(every) == 0 {
 					l.Addr = OtherAddr
 				}
 				npick := len(st.Created)
